@@ -1,4 +1,387 @@
 import RecipeGrid.Model.Site
+import RecipeGrid.Lemmas.Site
+import RecipeGrid.Props.C15
+/-! C14 — generated links: percent-encoding loses nothing and introduces no URL syntax; a relative link
+    resolves (RFC 3986 §5.2) to the page it was made for; page paths are file-like; every generated link
+    targets a page of the same site. -/
 namespace RG.C14
 theorem relative_example : hrefRelative "/foo/bar/baz.html".toList "/foo/qux/quo.html".toList = "../qux/quo.html".toList := by decide
+
+-- ================================================================ percent-encoding
+/-- UTF-8 bytes of a string -/
+def utf8Bytes (s : Str) : List UInt8 := s.flatMap String.utf8EncodeChar
+
+/-- value of a hexadecimal digit (either case, as `urllib.parse.unquote` accepts) -/
+def hexVal (c : Char) : Option Nat :=
+  if '0' ≤ c ∧ c ≤ '9' then some (c.toNat - 48)
+  else if 'A' ≤ c ∧ c ≤ 'F' then some (c.toNat - 55)
+  else if 'a' ≤ c ∧ c ≤ 'f' then some (c.toNat - 87)
+  else none
+
+/-- `urllib.parse.unquote_to_bytes`, written independently of `urlQuote`: `%XX` becomes the byte XX, everything else
+    its UTF-8 bytes; a `%` not followed by two hex digits is kept literally. The first argument counts characters
+    still to be skipped (the two hex digits of an escape just decoded). -/
+def unquoteGo : Nat → Str → List UInt8
+  | _, [] => []
+  | k + 1, _ :: rest => unquoteGo k rest
+  | 0, c :: rest =>
+    if c = '%' then
+      match rest with
+      | a :: b :: _ =>
+        match hexVal a, hexVal b with
+        | some x, some y => UInt8.ofNat (16 * x + y) :: unquoteGo 2 rest
+        | _, _ => String.utf8EncodeChar c ++ unquoteGo 0 rest
+      | _ => String.utf8EncodeChar c ++ unquoteGo 0 rest
+    else String.utf8EncodeChar c ++ unquoteGo 0 rest
+def unquoteBytes (s : Str) : List UInt8 := unquoteGo 0 s
+
+/-- RFC 3986 unreserved characters -/
+def isUnreserved (c : Char) : Bool :=
+  ('a' ≤ c && c ≤ 'z') || ('A' ≤ c && c ≤ 'Z') || ('0' ≤ c && c ≤ '9') || c == '-' || c == '.' || c == '_' || c == '~'
+def isUpperHex (c : Char) : Bool := ('0' ≤ c && c ≤ '9') || ('A' ≤ c && c ≤ 'F')
+
+/-- only unreserved characters, `/`, and complete `%XX` escapes (upper-case hex); the first argument counts the hex
+    digits still owed by an escape -/
+def wellEscapedGo : Nat → Str → Bool
+  | 0, [] => true
+  | _ + 1, [] => false
+  | k + 1, c :: rest => isUpperHex c && wellEscapedGo k rest
+  | 0, c :: rest => if c = '%' then wellEscapedGo 2 rest else (isUnreserved c || c == '/') && wellEscapedGo 0 rest
+def wellEscaped (s : Str) : Bool := wellEscapedGo 0 s
+
+example : unquoteBytes "a%20b%zz%".toList = [97, 32, 98, 37, 122, 122, 37] := by decide
+example : unquoteBytes (urlQuote "a b/é#?%".toList) = utf8Bytes "a b/é#?%".toList := by decide
+example : urlQuote "a b/é#?%".toList = "a%20b/%C3%A9%23%3F%25".toList := by decide
+example : wellEscaped "a%20b/%C3%A9".toList = true := by decide
+example : wellEscaped "a%2".toList = false := by decide
+example : wellEscaped "a#b".toList = false := by decide
+example : wellEscaped "a b".toList = false := by decide
+example : wellEscaped "50%zz".toList = false := by decide
+
+/-- percent-encoding loses nothing: decoding the encoded string gives back the UTF-8 bytes of the original -/
+theorem quote_roundtrip (s : Str) : unquoteBytes (urlQuote s) = utf8Bytes s := by
+  have hex : ∀ n, n < 16 → hexVal (hexDigit n) = some n := fun n hn =>
+    (by decide : ∀ n : Fin 16, hexVal (hexDigit n.val) = some n.val) ⟨n, hn⟩
+  have esc : ∀ (bs : List UInt8) (t : Str),
+      unquoteGo 0 (bs.flatMap (fun b => ['%', hexDigit (b.toNat / 16), hexDigit (b.toNat % 16)]) ++ t) = bs ++ unquoteGo 0 t := by
+    intro bs t
+    induction bs with
+    | nil => rfl
+    | cons b bs ih =>
+      have hb : b.toNat < 256 := UInt8.toNat_lt b
+      simp only [List.flatMap_cons, List.cons_append, List.nil_append, unquoteGo, if_true,
+        hex (b.toNat / 16) (by omega), hex (b.toNat % 16) (by omega), ih]
+      congr 1
+      rw [Nat.div_add_mod]
+      simp
+  have key : ∀ (c : Char) (t : Str), unquoteGo 0 (urlQuoteChar c ++ t) = String.utf8EncodeChar c ++ unquoteGo 0 t := by
+    intro c t
+    unfold urlQuoteChar
+    split
+    · rename_i h
+      have hc : c ≠ '%' := by
+        intro hc; subst hc; revert h; decide
+      simp [unquoteGo, hc]
+    · exact esc _ _
+  have main : ∀ (s : Str), unquoteGo 0 (urlQuote s) = utf8Bytes s := by
+    intro s
+    induction s with
+    | nil => rfl
+    | cons c s ih =>
+      simp only [urlQuote, List.flatMap_cons, utf8Bytes] at *
+      rw [key, ih]
+  exact main s
+
+/-- UTF-8 encoding is injective, so the decoded bytes determine the string -/
+theorem utf8Bytes_injective (a b : Str) (h : utf8Bytes a = utf8Bytes b) : a = b := by
+  have h1 : a.utf8Encode = b.utf8Encode := by
+    unfold List.utf8Encode
+    unfold utf8Bytes at h
+    rw [h]
+  have h2 : String.ofList a = String.ofList b := by
+    apply String.toByteArray_inj.mp
+    simpa using h1
+  have := congrArg String.toList h2
+  simpa using this
+
+/-- … hence the only string a percent-encoded string decodes to is the original -/
+theorem quote_decodes_uniquely (s r : Str) (h : unquoteBytes (urlQuote s) = utf8Bytes r) : r = s :=
+  utf8Bytes_injective r s (by rw [← h, quote_roundtrip])
+
+/-- the encoded string consists of unreserved characters, `/` and complete upper-case `%XX` escapes only -/
+theorem quote_safe (s : Str) : wellEscaped (urlQuote s) = true := by
+  have hex : ∀ n, n < 16 → isUpperHex (hexDigit n) = true := fun n hn =>
+    (by decide : ∀ n : Fin 16, isUpperHex (hexDigit n.val) = true) ⟨n, hn⟩
+  have esc : ∀ (bs : List UInt8) (t : Str),
+      wellEscapedGo 0 (bs.flatMap (fun b => ['%', hexDigit (b.toNat / 16), hexDigit (b.toNat % 16)]) ++ t) = wellEscapedGo 0 t := by
+    intro bs t
+    induction bs with
+    | nil => rfl
+    | cons b bs ih =>
+      have hb : b.toNat < 256 := UInt8.toNat_lt b
+      simp only [List.flatMap_cons, List.cons_append, List.nil_append, wellEscapedGo, if_true,
+        hex (b.toNat / 16) (by omega), hex (b.toNat % 16) (by omega), ih, Bool.true_and]
+  have key : ∀ (c : Char) (t : Str), wellEscapedGo 0 (urlQuoteChar c ++ t) = wellEscapedGo 0 t := by
+    intro c t
+    unfold urlQuoteChar
+    split
+    · rename_i h
+      have hc : c ≠ '%' := by
+        intro hc; subst hc; revert h; decide
+      have hu : (isUnreserved c || c == '/') = true := by
+        simp only [isUnreserved]
+        simp only [Bool.or_eq_true] at h ⊢
+        grind
+      simp [wellEscapedGo, hc, hu]
+    · exact esc _ _
+  have main : ∀ (s : Str), wellEscapedGo 0 (urlQuote s) = true := by
+    intro s
+    induction s with
+    | nil => rfl
+    | cons c s ih =>
+      simp only [urlQuote, List.flatMap_cons] at *
+      rw [key, ih]
+  exact main s
+
+/-- character-wise reading of `quote_safe`: no `#`, `?`, space, quote … can appear; `%` only as part of an escape -/
+theorem quote_safe_chars (s : Str) : ∀ c ∈ urlQuote s, isUnreserved c = true ∨ c = '/' ∨ c = '%' := by
+  intro c hc
+  have hex : ∀ n, n < 16 → isUnreserved (hexDigit n) = true := fun n hn =>
+    (by decide : ∀ n : Fin 16, isUnreserved (hexDigit n.val) = true) ⟨n, hn⟩
+  obtain ⟨x, _, hx⟩ := List.mem_flatMap.mp hc
+  unfold urlQuoteChar at hx
+  split at hx
+  · rename_i h
+    have : c = x := by simpa using hx
+    subst this
+    have hu : (isUnreserved c || c == '/') = true := by
+      simp only [isUnreserved]
+      simp only [Bool.or_eq_true] at h ⊢
+      grind
+    rcases Bool.or_eq_true _ _ |>.mp hu with h1 | h1
+    · exact .inl h1
+    · exact .inr (.inl (by simpa using h1))
+  · obtain ⟨b, _, hb⟩ := List.mem_flatMap.mp hx
+    have hb' : b.toNat < 256 := UInt8.toNat_lt b
+    simp only [List.mem_cons, List.not_mem_nil, or_false] at hb
+    rcases hb with rfl | rfl | rfl
+    · exact .inr (.inr rfl)
+    · exact .inl (hex _ (by omega))
+    · exact .inl (hex _ (by omega))
+
+-- ================================================================ C14.1 relative links resolve
+/-- a path is *file-like*: absolute, every segment non-empty and not "." or ".." (so it ends in a file segment) -/
+def FileLike (p : Str) : Prop :=
+  ∃ segs, p = '/' :: joinSlash segs ∧ segs ≠ [] ∧ ∀ s ∈ segs, s ≠ [] ∧ s ≠ ".".toList ∧ s ≠ "..".toList ∧ '/' ∉ s
+
+/-- the segments of an absolute path (after the leading "/") -/
+def segsOf (p : Str) : List Str := (splitSlash p).drop 1
+
+theorem relative_resolves (frm to : Str) (hf : FileLike frm) (ht : FileLike to)
+    (hne : ¬ segsOf to <+: (segsOf frm).dropLast) :
+    resolveRef frm (relativePath frm to) = to := by
+  obtain ⟨fs, rfl, hf1, hf2⟩ := hf
+  obtain ⟨ts, rfl, ht1, ht2⟩ := ht
+  have e1 : segsOf ('/' :: joinSlash fs) = fs := by
+    simp [segsOf, splitSlash_abs fs hf1 (fun s hs => (hf2 s hs).2.2.2)]
+  have e2 : segsOf ('/' :: joinSlash ts) = ts := by
+    simp [segsOf, splitSlash_abs ts ht1 (fun s hs => (ht2 s hs).2.2.2)]
+  rw [e1, e2] at hne
+  exact relative_resolves_segs fs ts hf1 ht1 (fun s hs => (hf2 s hs).2) ht2 hne
+
+/-- the link as written (percent-encoded) decodes to a reference that resolves to the target -/
+theorem link_resolves (frm to : Str) (hf : FileLike frm) (ht : FileLike to)
+    (hne : ¬ segsOf to <+: (segsOf frm).dropLast) :
+    ∃ ref, unquoteBytes (hrefRelative frm to) = utf8Bytes ref ∧ resolveRef frm ref = to :=
+  ⟨relativePath frm to, quote_roundtrip _, relative_resolves frm to hf ht hne⟩
+
+/-- a link to the page itself is its own file name, which resolves to itself -/
+theorem relative_resolves_self (frm : Str) (hf : FileLike frm) :
+    relativePath frm frm = (segsOf frm).getLast?.getD [] ∧ resolveRef frm (relativePath frm frm) = frm := by
+  refine ⟨?_, ?_⟩
+  · obtain ⟨fs, rfl, hf1, hf2⟩ := hf
+    have e1 : segsOf ('/' :: joinSlash fs) = fs := by
+      simp [segsOf, splitSlash_abs fs hf1 (fun s hs => (hf2 s hs).2.2.2)]
+    rw [e1, relativePath_self_segs fs hf1 (fun s hs => (hf2 s hs).2.2.2), List.getLast?_eq_some_getLast hf1]
+    rfl
+  · apply relative_resolves frm frm hf hf
+    intro h
+    have hl := h.length_le
+    rw [List.length_dropLast] at hl
+    obtain ⟨fs, rfl, hf1, hf2⟩ := hf
+    have e1 : segsOf ('/' :: joinSlash fs) = fs := by
+      simp [segsOf, splitSlash_abs fs hf1 (fun s hs => (hf2 s hs).2.2.2)]
+    rw [e1] at hl
+    have : fs.length ≠ 0 := by simpa using hf1
+    omega
+
+example : FileLike "/serves2/Soups/leek soup.html".toList :=
+  ⟨["serves2".toList, "Soups".toList, "leek soup.html".toList], by decide, by decide, by decide⟩
+example : resolveRef "/serves2/a b/x.html".toList (relativePath "/serves2/a b/x.html".toList "/categories/é/y.html".toList)
+    = "/categories/é/y.html".toList := by decide
+example : ¬ segsOf "/categories/é/y.html".toList <+: (segsOf "/serves2/a b/x.html".toList).dropLast := by decide
+/-- the side condition is needed: a target that is an ancestor *directory* name of the source resolves to a directory -/
+example : resolveRef "/a/b/c.html".toList (relativePath "/a/b/c.html".toList "/a".toList) = "/a/".toList := by decide
+
+-- ================================================================ page paths are file-like
+def SegOK (s : Str) : Prop := s ≠ [] ∧ s ≠ ".".toList ∧ s ≠ "..".toList ∧ '/' ∉ s
+
+/-- every directory name below the root is a proper path segment, and no recipe file stem contains "/"
+    (the stem gets ".html" appended, so it cannot be empty, "." or "..") -/
+def NamesOK (root : Dir) : Prop :=
+  (∀ dirs d, C15.DirAt root dirs d → ∀ s ∈ dirs, SegOK s) ∧
+  (∀ dirs r, C15.InTree root dirs r → '/' ∉ stemOf r.file)
+
+/-- the shape of every page path: directory segments (none for the home page, else the scale root followed by the
+    directory names of a directory of the tree), then a file segment `<stem>.html` -/
+theorem page_path_shape (root : Dir) (rootName : Str) (M : Nat) (ps : List Page)
+    (h : sitePages root rootName M = .ok ps) (hn : NamesOK root) :
+    ∀ p ∈ ps, ∃ D stem, p.path = '/' :: joinSlash (D ++ [stem ++ ".html".toList]) ∧ '/' ∉ stem ∧ (∀ s ∈ D, SegOK s) ∧
+      (D = [] ∨ ∃ sv dirs d, D = scaleRoot sv :: dirs ∧ C15.DirAt root dirs d) := by
+  intro p hp
+  rcases C15.pages_classified root rootName M ps h p hp with h0 | ⟨sv, dirs, _, ⟨d, hd, hpath⟩ | ⟨r, hr, _, hpath, _⟩⟩
+  · exact ⟨[], "index".toList, by rw [h0]; decide, by decide, by simp, .inl rfl⟩
+  · refine ⟨scaleRoot sv :: dirs, "index".toList, by rw [hpath, catPath_segs]; rfl, by decide, ?_, .inr ⟨sv, dirs, d, rfl, hd⟩⟩
+    intro s hs
+    rcases List.mem_cons.mp hs with rfl | hs
+    · exact scaleRoot_ok sv
+    · exact hn.1 dirs d hd s hs
+  · obtain ⟨d, hd, _⟩ := (C15.inTree_iff ..).mp hr
+    refine ⟨scaleRoot sv :: dirs, stemOf r.file, by rw [hpath, recipePath_segs], hn.2 dirs r hr, ?_, .inr ⟨sv, dirs, d, rfl, hd⟩⟩
+    intro s hs
+    rcases List.mem_cons.mp hs with rfl | hs
+    · exact scaleRoot_ok sv
+    · exact hn.1 dirs d hd s hs
+
+theorem paths_are_files (root : Dir) (rootName : Str) (M : Nat) (ps : List Page)
+    (h : sitePages root rootName M = .ok ps) (hn : NamesOK root) : ∀ p ∈ ps, FileLike p.path := by
+  intro p hp
+  obtain ⟨D, stem, hpath, hstem, hD, _⟩ := page_path_shape root rootName M ps h hn p hp
+  refine ⟨_, hpath, by simp, ?_⟩
+  intro s hs
+  rcases List.mem_append.mp hs with hs | hs
+  · exact hD s hs
+  · have : s = stem ++ ".html".toList := by simpa using hs
+    rw [this]; exact htmlSeg_ok stem hstem
+
+-- ================================================================ every generated link targets a page of the site
+/-- no recipe states zero servings (the Python code divides by the stated number) -/
+def ServingsPositive (root : Dir) : Prop := ∀ dirs r, C15.InTree root dirs r → r.servings ≠ some 0
+
+/-- C14: every generated link (breadcrumbs, stylesheet, category lists, serving menu, "rescaled from" link) of every
+    page is the in-page anchor `#` or `href.relative(page, target)` for a page `target` of the same site or the stylesheet -/
+theorem generated_links_target_pages (root : Dir) (rootName : Str) (M : Nat) (ps : List Page)
+    (h : sitePages root rootName M = .ok ps) (hpos : ServingsPositive root) :
+    ∀ p ∈ ps, ∀ l ∈ p.links, l = ['#'] ∨ ∃ t, (t ∈ ps.map (·.path) ∨ t = cssPath) ∧ l = hrefRelative p.path t := by
+  have hroots := C15.scaled_roots root rootName M ps h
+  have hhome : "/index.html".toList ∈ ps.map (·.path) :=
+    List.mem_map.mpr ⟨homePage root rootName M, (mem_sitePages h _).mpr (.inl rfl), rfl⟩
+  intro p hp
+  rcases (mem_sitePages h p).mp hp with rfl | ⟨sv, hsv, hp⟩
+  · intro l hl
+    rcases (mem_homePage_links root rootName M l).mp hl with hl | ⟨m, hm, hl⟩ | hl
+    · exact .inr ⟨cssPath, .inr rfl, hl⟩
+    · exact .inr ⟨_, .inl (hroots.1 (m + 1) (by omega) (by omega)), hl⟩
+    · exact .inr ⟨_, .inl hroots.2, hl⟩
+  · have hH : C15.Hierarchy M sv := by cases sv <;> exact hsv
+    apply links_target M sv (fun t => t ∈ ps.map (·.path) ∨ t = cssPath) (.inr rfl) root (homeChain root rootName) [] true _ _ _ p hp
+    · intro c hc
+      have : c = (root.title (some rootName), "/index.html".toList) := by simpa [homeChain] using hc
+      rw [this]; exact .inl hhome
+    · intro rel d' hsub
+      rw [catDirs_true, List.nil_append]
+      exact .inl (C15.category_pages root rootName M ps h rel d' ((C15.dirAt_iff ..).mpr hsub) sv hH)
+    · intro rel d' r hsub hr
+      rw [catDirs_true, List.nil_append]
+      have hin : C15.InTree root rel r := (C15.inTree_iff ..).mpr ⟨d', (C15.dirAt_iff ..).mpr hsub, hr⟩
+      unfold RecTargets
+      cases hs : r.servings with
+      | none =>
+        obtain ⟨q, hq, hpath, _⟩ := C15.unscalable_recipe_page root rootName M ps h rel r hin hs
+        exact .inl (List.mem_map.mpr ⟨q, hq, hpath⟩)
+      | some native =>
+        obtain ⟨hle, hall⟩ := C15.recipe_pages_per_count root rootName M ps h rel r hin native hs
+        have hpage : ∀ n, 1 ≤ n → n ≤ M → recipePath (some n) rel r.file ∈ ps.map (·.path) := by
+          intro n h1 h2
+          obtain ⟨q, hq, hpath, _⟩ := hall n h1 h2
+          exact List.mem_map.mpr ⟨q, hq, hpath⟩
+        have hnat : 1 ≤ native := by
+          have := hpos rel r hin
+          rw [hs] at this
+          rcases Nat.eq_zero_or_pos native with h0 | h0
+          · subst h0; exact absurd rfl this
+          · exact h0
+        refine ⟨.inl (hpage native hnat hle), fun m hm => .inl (hpage (m + 1) (by omega) (by omega)), ?_⟩
+        intro n hn
+        subst hn
+        exact .inl (hpage n hH.1 hH.2)
+
+/-- the hypothesis on servings is needed: a recipe "for 0" makes the `categories` list link to `/serves0/…`,
+    which is not a page of the site (in Python the site build fails with `ZeroDivisionError` instead) -/
+theorem generated_links_zero_servings :
+    ∃ ps, sitePages (.mk "r".toList none [⟨"x.md".toList, "X".toList, some 0⟩] []) "r".toList 1 = .ok ps ∧
+      ∃ p ∈ ps, ∃ l ∈ p.links, l ≠ ['#'] ∧ ∀ t ∈ cssPath :: ps.map (·.path), l ≠ hrefRelative p.path t := by
+  refine ⟨_, rfl, ?_⟩
+  decide
+
+/-- links resolve: a generated link of a page, decoded and resolved against the page's own path, gives the target page
+    (for targets that are not an ancestor directory name of the page, which file-like page paths never are in practice) -/
+theorem generated_link_resolves (root : Dir) (rootName : Str) (M : Nat) (ps : List Page)
+    (h : sitePages root rootName M = .ok ps) (hn : NamesOK root) (p t : Page) (hp : p ∈ ps) (ht : t ∈ ps)
+    (hne : ¬ segsOf t.path <+: (segsOf p.path).dropLast) :
+    ∃ ref, unquoteBytes (hrefRelative p.path t.path) = utf8Bytes ref ∧ resolveRef p.path ref = t.path :=
+  link_resolves p.path t.path (paths_are_files root rootName M ps h hn p hp) (paths_are_files root rootName M ps h hn t ht) hne
+
+/-- no directory of the tree is named like a page file (`….html`); otherwise the directory `x.html/` and the page
+    `x.html` would claim the same output path -/
+def NoHtmlDirs (root : Dir) : Prop := ∀ dirs d, C15.DirAt root dirs d → ∀ s ∈ dirs, ¬ ".html".toList <:+ s
+
+/-- C14.1 for the whole site: every generated link of every page — decoded and resolved against the page's own path as a
+    browser does (RFC 3986 §5.2) — is the in-page anchor `#` or leads exactly to the path of a page of the site or to the
+    stylesheet -/
+theorem every_link_resolves (root : Dir) (rootName : Str) (M : Nat) (ps : List Page)
+    (h : sitePages root rootName M = .ok ps) (hn : NamesOK root) (hh : NoHtmlDirs root) (hpos : ServingsPositive root) :
+    ∀ p ∈ ps, ∀ l ∈ p.links, l = ['#'] ∨
+      ∃ t, (t ∈ ps.map (·.path) ∨ t = cssPath) ∧ ∃ ref, unquoteBytes l = utf8Bytes ref ∧ resolveRef p.path ref = t := by
+  intro p hp l hl
+  rcases generated_links_target_pages root rootName M ps h hpos p hp l hl with h0 | ⟨t, ht, rfl⟩
+  · exact .inl h0
+  refine .inr ⟨t, ht, ?_⟩
+  have hpf := paths_are_files root rootName M ps h hn p hp
+  obtain ⟨D, stem, hpath, hstem, hD, hDshape⟩ := page_path_shape root rootName M ps h hn p hp
+  have hsegs : ∀ L : List Str, L ≠ [] → (∀ s ∈ L, '/' ∉ s) → segsOf ('/' :: joinSlash L) = L := by
+    intro L h1 h2
+    simp [segsOf, splitSlash_abs L h1 h2]
+  have hpsegs : (segsOf p.path).dropLast = D := by
+    rw [hpath, hsegs _ (by simp)]
+    · simp
+    · intro s hs
+      rcases List.mem_append.mp hs with hs | hs
+      · exact (hD s hs).2.2.2
+      · have : s = stem ++ ".html".toList := by simpa using hs
+        rw [this]; exact (htmlSeg_ok stem hstem).2.2.2
+  rcases ht with ht | rfl
+  · obtain ⟨q, hq, rfl⟩ := List.mem_map.mp ht
+    have hqf := paths_are_files root rootName M ps h hn q hq
+    obtain ⟨D', stem', hpath', hstem', hD', _⟩ := page_path_shape root rootName M ps h hn q hq
+    apply link_resolves p.path q.path hpf hqf
+    rw [hpsegs, hpath', hsegs _ (by simp)]
+    · apply not_prefix_of_last_not_mem
+      rcases hDshape with rfl | ⟨sv, dirs, d, rfl, hd⟩
+      · simp
+      · exact htmlSeg_not_mem_dirs sv dirs stem' (hh dirs d hd)
+    · intro s hs
+      rcases List.mem_append.mp hs with hs | hs
+      · exact (hD' s hs).2.2.2
+      · have : s = stem' ++ ".html".toList := by simpa using hs
+        rw [this]; exact (htmlSeg_ok stem' hstem').2.2.2
+  · have hcss : cssPath = '/' :: joinSlash ["css".toList, "style.css".toList] := by decide
+    apply link_resolves p.path cssPath hpf ⟨_, hcss, by decide, by decide⟩
+    rw [hpsegs, hcss, hsegs _ (by decide) (by decide)]
+    rintro ⟨rest, hrest⟩
+    rcases hDshape with rfl | ⟨sv, dirs, d, rfl, hd⟩
+    · simp at hrest
+    · have := (List.cons.inj hrest).1
+      exact scaleRoot_ne_css sv this.symm
+
 end RG.C14
